@@ -762,8 +762,14 @@ class Run:
                 # object) - an absolute check that does not go blind when fresh objects
                 # share a defect of the implicit compile
                 rx = self.ref(m.spec(("make_then", refop)))
-                if (exc, ret, out) != (rx["exc"], rx["ret"], rx["out"]) and injected is None \
-                        and (r["exc"], r["ret"], r["out"]) != (rx["exc"], rx["ret"], rx["out"]):
+
+                def same(e, rt, ot):
+                    # equal outcome: the same failure, or success with the same result
+                    # (what a failed call left on the stream is not compared)
+                    return e == rx["exc"] and (e is not None or
+                                               (rt, ot) == (rx["ret"], rx["out"]))
+                if injected is None and not same(exc, ret, out) \
+                        and not same(r["exc"], r["ret"], r["out"]):
                     self.viol(prop, f"{prop}/implicit-compile-differs-from-explicit-make",
                               f"{opkind} with a compile due gives ({exc!r}, "
                               f"{core.short_hash(repr((ret, out)))}); make() followed by the "
